@@ -13,10 +13,10 @@ import (
 	"go/parser"
 	"go/token"
 	"os"
-	"time"
 	"sort"
 	"strconv"
 	"strings"
+	"time"
 
 	"github.com/BondMachineHQ/BondMachine/pkg/basm"
 	"github.com/BondMachineHQ/BondMachine/pkg/bmconfig"
@@ -221,6 +221,36 @@ func main() {
 		case <-time.After(60 * time.Second):
 			fmt.Println("BONDGO-TIMEOUT the compiler did not finish within 60 s")
 		}
+	case "basmhdl":
+		// basmhdl <source file> : the machine the real assembler emits, described (as //@@DESC comment lines) and
+		// with every Verilog module the real generators write for it
+		src, err := os.ReadFile(os.Args[2])
+		if err != nil {
+			fmt.Fprintln(os.Stderr, err)
+			os.Exit(2)
+		}
+		bi := new(basm.BasmInstance)
+		bi.BMinfo = new(bminfo.BMinfo)
+		bi.BasmInstanceInit(nil)
+		bi.Activate(bmconfig.ChooserMinWordSize)
+		bi.Activate(bmconfig.ChooserForceSameName)
+		if err := bi.ParseAssemblyStringDefault(string(src)); err != nil {
+			fmt.Println("BASM-ERROR parse:", err)
+			return
+		}
+		if err := bi.RunAssembler(); err != nil {
+			fmt.Println("BASM-ERROR assemble:", err)
+			return
+		}
+		if err := bi.Assembler2BondMachine(); err != nil {
+			fmt.Println("BASM-ERROR emit:", err)
+			return
+		}
+		bm := bi.GetBondMachine()
+		for _, l := range strings.Split(strings.TrimSpace(describeBM(bm, bi.CPNames)), "\n") {
+			fmt.Println("//@@DESC " + l)
+		}
+		writeModules(bm)
 	case "bmfull":
 		// bmfull "<rsize>;<N>:<M>:<R>:<O>:<op+op+...>,...;I,O,P0,...;bonds" : every module of the machine
 		parts := strings.Split(os.Args[2], ";")
@@ -249,27 +279,7 @@ func main() {
 				}
 			}
 		}
-		conf := new(bondmachine.Config)
-		pconf := new(procbuilder.Config)
-		ri := new(procbuilder.RuntimeInfo)
-		ri.Init()
-		pconf.Runinfo = ri
-		section("main", bm.Write_verilog_main(conf, "bondmachine", "iverilog"))
-		for i, d := range bm.Processors {
-			n := strconv.Itoa(i)
-			mach := bm.Domains[d]
-			section("proc"+n, mach.Conproc.Write_verilog(pconf, &mach.Arch, "p"+n, "iverilog"))
-			section("rom"+n, mach.Rom.Write_verilog(mach, "p"+n+"rom", "iverilog"))
-			section("arch"+n, mach.Arch.Write_verilog("a"+n, map[string]string{"processor": "p" + n, "rom": "p" + n + "rom", "ram": "p" + n + "ram"}, "iverilog"))
-			fmt.Printf("//@@INFO p%s.maxword=%d p%s.opbits=%d p%s.ops=", n, mach.Max_word(), n, mach.Opcodes_bits(), n)
-			for k, op := range mach.Op {
-				if k > 0 {
-					fmt.Print("+")
-				}
-				fmt.Print(op.Op_get_name())
-			}
-			fmt.Println()
-		}
+		writeModules(bm)
 	default:
 		os.Exit(2)
 	}
@@ -415,4 +425,29 @@ func describeBM(bm *bondmachine.Bondmachine, names map[int]string) string {
 			strings.Join(ops, ","), strings.Join(m.Program.Slocs, ","), names[i])
 	}
 	return sb.String()
+}
+
+// writeModules prints every module of a machine: top level, and per processor the processor, its ROM and its arch wrapper
+func writeModules(bm *bondmachine.Bondmachine) {
+	conf := new(bondmachine.Config)
+	pconf := new(procbuilder.Config)
+	ri := new(procbuilder.RuntimeInfo)
+	ri.Init()
+	pconf.Runinfo = ri
+	section("main", bm.Write_verilog_main(conf, "bondmachine", "iverilog"))
+	for i, d := range bm.Processors {
+		n := strconv.Itoa(i)
+		mach := bm.Domains[d]
+		section("proc"+n, mach.Conproc.Write_verilog(pconf, &mach.Arch, "p"+n, "iverilog"))
+		section("rom"+n, mach.Rom.Write_verilog(mach, "p"+n+"rom", "iverilog"))
+		section("arch"+n, mach.Arch.Write_verilog("a"+n, map[string]string{"processor": "p" + n, "rom": "p" + n + "rom", "ram": "p" + n + "ram"}, "iverilog"))
+		fmt.Printf("//@@INFO p%s.maxword=%d p%s.opbits=%d p%s.ops=", n, mach.Max_word(), n, mach.Opcodes_bits(), n)
+		for k, op := range mach.Op {
+			if k > 0 {
+				fmt.Print("+")
+			}
+			fmt.Print(op.Op_get_name())
+		}
+		fmt.Println()
+	}
 }
